@@ -11,7 +11,7 @@ import (
 func init() {
 	register(&Check{
 		ID: "C02", Level: "exploration", QuickSecs: 150, ThoroughSecs: 1500,
-		Rule:        "skeletons over {'a',[ab],.,\"é\",&{},!{},#{}} x {?,*,+,&,!} x seq/choice up to N nodes (quick 4, thorough 5) wrapped in a rule-level action; every placement of <=2 labels on sub-expressions; every block receives the labels of its scope; every true/false script of the code predicates, each also with the predicates returning an error next to their boolean; inputs over {a,b,\\n,é} up to L=3; the complete ordered log of block invocations (id, kind, line:col:offset, text, label values), also on abandoned alternatives, and the parse result are compared with the reference interpreter; with Memoize each observed invocation must be one the reference also makes; plus a family generated with -optimize-grammar in which a labelled leaf rule is inlined next to equally named labels. Non-trivial = at least two block invocations of which one on a later-abandoned path or after a backtrack.",
+		Rule:        "skeletons over {'a',[ab],.,\"é\",&{},!{},#{}} x {?,*,+,&,!} x seq/choice up to N nodes (quick 4, thorough 5) wrapped in a rule-level action; every placement of <=2 labels on sub-expressions (distinct names, and the same name twice when the two bindings are in different scopes); a scope family (x bound in the rule sequence and again inside each scope-opening construct - & ! ? * + choice alternative, label, recovery - in a sub-sequence that continues after the inner binding; 243 grammars, inputs over {a,b} up to 4); every block receives the labels of its scope; every true/false script of the code predicates, each also with the predicates returning an error next to their boolean; inputs over {a,b,\\n,é} up to L=3; the complete ordered log of block invocations (id, kind, line:col:offset, text, label values), also on abandoned alternatives, and the parse result are compared with the reference interpreter; with Memoize (bodies up to 3 nodes in the quick tier) each observed invocation must be one the reference also makes; plus a family generated with -optimize-grammar in which a labelled leaf rule is inlined next to equally named labels. Non-trivial = at least two block invocations of which one on a later-abandoned path or after a backtrack.",
 		Assumptions: []string{"E1 loader", "which labels a block receives is C04's concern; here the values bound to them are checked"},
 		Run:         runC02,
 	})
@@ -20,7 +20,7 @@ func init() {
 // labelings returns copies of body with every subset of <= max labels placed
 // on distinct non-root nodes (labels x, y in pre-order).
 // sameNameMaxNodes bounds the bodies that also get same-name label pairs.
-var sameNameMaxNodes = 4
+var sameNameMaxNodes = 3
 
 func labelings(body *peg.Expr, max int) []*peg.Expr {
 	nodes := peg.Nodes(body)
@@ -149,6 +149,41 @@ func runC02(c *ShardCtx) {
 		}
 		optGrammarVsReference(c, g, []core.Gen{{OptGrammar: true}, {OptGrammar: true, Optimize: true}}, peg.Inputs([]string{"a", "b", "c"}, 3), "-optimize-grammar")
 	}
+	// scope family: the label x bound in the rule's sequence and AGAIN inside every scope-opening
+	// construct ( & ! ? * + choice alternative, label, recovery ) in a sub-sequence that goes on
+	// after the inner binding (so that it can fail or succeed after it): the blocks after the
+	// construct still see the outer value
+	{
+		terms := []func() *peg.Expr{func() *peg.Expr { return peg.Lit("a") }, func() *peg.Expr { return peg.Cls(false, false, "a", "b") }, func() *peg.Expr { return peg.Any() }}
+		ops := []func(in *peg.Expr) *peg.Expr{
+			func(in *peg.Expr) *peg.Expr { return peg.And(in) }, func(in *peg.Expr) *peg.Expr { return peg.Not(in) }, func(in *peg.Expr) *peg.Expr { return peg.Opt(in) },
+			func(in *peg.Expr) *peg.Expr { return peg.Star(in) }, func(in *peg.Expr) *peg.Expr { return peg.Plus(in) },
+			func(in *peg.Expr) *peg.Expr { return peg.Choice(in, peg.Lit("a"), peg.Lit("")) }, func(in *peg.Expr) *peg.Expr { return peg.Label("y", in) },
+			func(in *peg.Expr) *peg.Expr { return peg.Recover(in, peg.Lit(""), "l") }, func(in *peg.Expr) *peg.Expr { return peg.Action(0, in) },
+		}
+		for _, t1 := range terms {
+			for _, t2 := range terms {
+				for _, t3 := range terms {
+					for oi, op := range ops {
+						idx++
+						if !c.Mine(idx) {
+							continue
+						}
+						inner := peg.Seq(peg.Label("x", t2()), t3())
+						if oi == len(ops)-1 {
+							inner = peg.Seq(peg.Label("z", t2()), t3()) // an action opens no scope: distinct names
+						}
+						g := &peg.Grammar{Rules: []*peg.Rule{{Name: "S", Expr: peg.Action(0, peg.Seq(peg.Label("x", t1()), op(inner), peg.AndCode(0), peg.Opt(peg.Any())))}}}
+						peg.Renumber(g, 1)
+						peg.AssignArgs(g)
+						fam := &family{gens: gens2, inputs: peg.Inputs([]string{"a", "b"}, 4), opts: []rtapi.RunOpts{{MaxExpr: 600, Filename: "f"}}, scripts: predScripts(g, func(e *peg.Expr) rtapi.Block { return rtapi.Block{} }),
+							nontrivial: nontriv, confEvery: 23, confQuota: 1, cmp: core.CmpOpts{SkipNoMatch: true}}
+						runGrammar(c, g, fam)
+					}
+				}
+			}
+		}
+	}
 	for size := 1; size <= n; size++ {
 		for _, body := range en.Size(size) {
 			for _, lab := range labelings(body, 2) {
@@ -172,7 +207,7 @@ func runC02(c *ShardCtx) {
 				opts := []rtapi.RunOpts{{MaxExpr: 600, Filename: "f"}}
 				fam := &family{gens: gens2, inputs: inputs, opts: opts, scripts: scripts, nontrivial: nontriv, confEvery: 197, confQuota: 1, cmp: core.CmpOpts{SkipNoMatch: true}}
 				runGrammar(c, g, fam)
-				if !hasLabelReader && !g.Has(peg.KState) {
+				if !hasLabelReader && !g.Has(peg.KState) && (size <= 3 || c.Thorough()) {
 					famM := &family{gens: gensPlain, inputs: inputs, opts: []rtapi.RunOpts{{MaxExpr: 600, Filename: "f", Memoize: true}}, scripts: scripts,
 						nontrivial: nontriv, cmp: core.CmpOpts{SkipLog: true, SkipNoMatch: true}, extra: memoLogOracle}
 					runGrammar(c, g, famM)
